@@ -283,146 +283,102 @@ Proof.
     apply filter_In. split; auto. simpl. apply str_eqb_refl.
 Qed.
 
-Lemma nodup_snd_functional (items : list (str * str)) l1 l2 r :
-  NoDup (map snd items) -> In (l1, r) items -> In (l2, r) items -> l1 = l2.
+Lemma rename_list_In tp items (accT : list (str * ent)) l e :
+  denotes tp accT ->
+  (In (l, e) (rename_list tp items) <-> In (l, e) (pick items accT)).
 Proof.
-  induction items as [|[l0 r0] items IH]; simpl; [tauto|].
-  intros ND H1 H2. inversion ND as [|? ? Hn ND']; subst.
-  destruct H1 as [H1|H1], H2 as [H2|H2].
-  - congruence.
-  - injection H1 as -> ->. exfalso. apply Hn. now apply (in_map snd) in H2.
-  - injection H2 as -> ->. exfalso. apply Hn. now apply (in_map snd) in H1.
-  - auto.
-Qed.
-Lemma used_names_get items r l :
-  NoDup (map snd items) -> (assoc_get r (used_names items) = Some l <-> In (l, r) items).
-Proof.
-  intros ND. unfold used_names.
-  assert (F : functional (map (fun lr : str * str => (snd lr, fst lr)) items)).
-  { intros n e1 e2 H1 H2. apply in_map_iff in H1 as ([a b] & E1 & H1), H2 as ([a' b'] & E2 & H2).
-    simpl in *. injection E1 as -> ->. injection E2 as -> ->. eapply nodup_snd_functional; eauto. }
-  rewrite (denotes_of_list _ F r l), in_map_iff. split.
-  - intros ([a b] & E & H). simpl in E. now injection E as -> ->.
-  - intros H. exists (l, r). auto.
+  intros D. rewrite pick_In. unfold rename_list. rewrite in_flat_map. split.
+  - intros ([l' r] & Hi & H). simpl in H. destruct (assoc_get r tp) eqn:E; [|destruct H].
+    destruct H as [H|[]]. injection H as -> ->. exists r. split; auto. now apply D.
+  - intros (r & Hi & Ha). exists (l, r). split; auto. simpl. apply D in Ha. rewrite Ha. now left.
 Qed.
 
-Lemma fold_select_update (un : list (str * str)) (tp : table) (res : table) :
-  fold_left (fun res kv => match assoc_get (fst kv) un with
-                           | Some l => assoc_set l (snd kv) res
-                           | None => res
-                           end) tp res
-  = update res (flat_map (fun kv => match assoc_get (fst kv) un with
-                                    | Some l => [(l, snd kv)]
-                                    | None => []
-                                    end) tp).
+(* updating with a list of pairs (later pairs win) that, as a set, is S2 *)
+Lemma denotes_update_list (t1 S1 L S2 : list (str * ent)) :
+  denotes t1 S1 -> same_set L S2 -> functional (S1 ++ S2) -> denotes (update t1 L) (S1 ++ S2).
 Proof.
-  revert res. induction tp as [|kv tp IH]; intros res; [reflexivity|].
-  simpl. rewrite update_app, IH. destruct (assoc_get (fst kv) un); reflexivity.
+  intros D1 SS F n e. rewrite in_app_iff.
+  destruct (update_get_or n t1 L) as [(v & Hin & E)|(Hn & E)]; rewrite E.
+  - apply SS in Hin. split.
+    + intros H; injection H as ->. now right.
+    + intros H. f_equal. apply (F n); apply in_app_iff; [now right|].
+      destruct H as [H|H]; [now left | now right].
+  - split.
+    + intros H. left. now apply D1.
+    + intros [H|H]; [now apply D1|]. apply SS in H. now apply Hn in H.
 Qed.
 
-Lemma used_entities_only tp accT u it items :
-  u_only u = Some (it :: items) -> NoDup (map snd (it :: items)) -> NoDup (map fst tp) ->
-  denotes tp accT -> functional (pick (it :: items) accT) ->
-  denotes (used_entities tp u) (pick (it :: items) accT) /\ NoDup (map fst (used_entities tp u)).
-Proof.
-  intros Eo ND NDt D F. unfold used_entities. rewrite Eo.
-  set (its := it :: items) in *. rewrite fold_select_update.
-  split; [|apply nodup_update; constructor].
-  set (L := flat_map _ tp).
-  assert (S : same_set L (pick its accT)).
-  { intros [l e]. unfold L. rewrite in_flat_map, pick_In. split.
-    - intros ([n e'] & Hin & H). simpl in H. destruct (assoc_get n (used_names its)) eqn:E; [|destruct H].
-      destruct H as [H|[]]. injection H as -> ->. apply used_names_get in E; auto.
-      exists n. split; auto. apply D. now apply In_get_nodup.
-    - intros (r & Hi & Ha). exists (r, e). split; [apply get_In; now apply D|].
-      simpl. apply (used_names_get its r l ND) in Hi. rewrite Hi. now left. }
-  apply (denotes_same _ L); auto. apply denotes_of_list.
-  eapply functional_incl; [|exact F]. intros x. apply S.
-Qed.
+Lemma use_hidden_eq M t : use_hidden M t = hidden M t.
+Proof. reflexivity. Qed.
 
-(* the facts the region predicates give for a module outside every region *)
-Definition region_free_m (M : module) : bool :=
-  negb (region_rename_m M) && negb (region_private_m M) && negb (region_only_empty_m M)
-  && negb (region_only_dup_m M).
-
-Lemma region_free_plain M u :
-  region_free_m M = true -> In u (m_uses M) -> u_only u = None ->
-  hidden M (u_target u) = [] /\ forall l r, In (l, r) (u_renames u) -> l = r.
-Proof.
-  intros RF Hu Eo. unfold region_free_m in RF. rewrite !andb_true_iff, !negb_true_iff in RF.
-  destruct RF as (((R1 & _) & _) & _). unfold region_rename_m in R1.
-  pose proof (existsb_false _ _ R1 u Hu) as H. simpl in H. rewrite Eo in H.
-  assert (P : forall u', In u' (m_uses M) -> str_eqb (u_target u') (u_target u) = true -> proper_renames u' = []).
-  { intros u' Hu' Et. pose proof (existsb_false _ _ H u' Hu') as H'. simpl in H'. rewrite Et in H'. simpl in H'.
-    destruct (proper_renames u'); [reflexivity | discriminate]. }
-  split.
-  - unfold hidden. apply flat_map_nil. intros u' Hu'. destruct (str_eqb (u_target u') (u_target u)) eqn:Et; auto.
-    now rewrite (P u' Hu' Et).
-  - intros l r Hin. pose proof (P u Hu (str_eqb_refl _)) as Pu. unfold proper_renames in Pu. rewrite Eo in Pu.
-    pose proof (filter_nil_all _ _ Pu (l, r) Hin) as Hf. simpl in Hf. apply negb_false_iff in Hf.
-    now apply str_eqb_eq.
-Qed.
-Lemma region_free_only M u items :
-  region_free_m M = true -> In u (m_uses M) -> u_only u = Some items ->
-  items <> [] /\ NoDup (map snd items).
-Proof.
-  intros RF Hu Eo. unfold region_free_m in RF. rewrite !andb_true_iff, !negb_true_iff in RF.
-  destruct RF as ((_ & R3) & R4). split.
-  - pose proof (existsb_false _ _ R3 u Hu) as H. simpl in H. rewrite Eo in H. destruct items; congruence.
-  - pose proof (existsb_false _ _ R4 u Hu) as H. simpl in H. rewrite Eo in H.
-    apply negb_false_iff in H. now apply nodup_b_NoDup.
-Qed.
-
+(* one USE statement: what get_used_entities returns denotes the Spec's set for the statement *)
 Lemma use_spec M u tp accT :
-  region_free_m M = true -> In u (m_uses M) -> NoDup (map fst tp) -> denotes tp accT ->
+  NoDup (map fst tp) -> denotes tp accT ->
   functional (import_stmt M u accT) ->
-  denotes (used_entities tp u) (import_stmt M u accT) /\ NoDup (map fst (used_entities tp u)).
+  denotes (used_entities tp (use_hidden M (u_target u)) u) (import_stmt M u accT)
+  /\ NoDup (map fst (used_entities tp (use_hidden M (u_target u)) u)).
 Proof.
-  intros RF Hu ND D F. unfold import_stmt in *. destruct (u_only u) as [items|] eqn:Eo.
-  - destruct (region_free_only M u items RF Hu Eo) as [Hne NDi].
-    destruct items as [|it items]; [congruence|]. now apply used_entities_only.
-  - destruct (region_free_plain M u RF Hu Eo) as [Hh Hr]. unfold used_entities. rewrite Eo.
-    split; auto. apply (denotes_same _ accT); auto.
-    intros [n e]. rewrite Hh, in_app_iff, filter_all by reflexivity. split; auto.
-    intros [H|H]; auto. apply pick_In in H as (r & Hi & Ha). now rewrite (Hr n r Hi).
+  intros ND D F. unfold import_stmt, used_entities in *. rewrite use_hidden_eq.
+  destruct (u_only u) as [items|].
+  - split; [|apply nodup_update; constructor].
+    apply (denotes_update_list [] [] (rename_list tp items) (pick items accT)).
+    + apply denotes_nil.
+    + intros [l e]. now apply rename_list_In.
+    + exact F.
+  - split; [|apply nodup_update; now apply nodup_filter_keys].
+    set (S1 := filter (fun re : str * ent => negb (str_in (fst re) (hidden M (u_target u)))) accT) in *.
+    set (S2 := pick (u_renames u) accT) in *.
+    apply (denotes_same _ (S1 ++ S2)).
+    + intros x. rewrite !in_app_iff. tauto.
+    + apply denotes_update_list.
+      * unfold S1. apply (denotes_filter (fun n => negb (str_in n (hidden M (u_target u))))). exact D.
+      * intros [l e]. now apply rename_list_In.
+      * eapply functional_incl; [|exact F]. intros x. rewrite !in_app_iff. tauto.
 Qed.
 
-(* should_be_public agrees with Fortran's accessibility for identifiers that are not own
-   declarations, outside region 2 *)
+(* should_be_public is Fortran's accessibility for identifiers that are not own declarations *)
 Lemma should_reexp M n :
-  region_free_m M = true ->
   forallb (fun a => negb (declared M (fst a))) (m_access M) = true ->
   NoDup (map fst (m_access M)) ->
   declared M n = false ->
   should_be_public M n = reexported M n.
 Proof.
-  intros RF Hacc ND Hd. unfold should_be_public, reexported, public_list.
+  intros Hacc ND Hd. unfold should_be_public, reexported, public_list, private_list.
   assert (N1 : str_in n (map d_name (filter (fun d => is_public (d_perm d)) (m_decls M))) = false).
   { apply str_in_false. intros H. apply in_map_iff in H as (d & E & H). apply filter_In in H as [H _].
     unfold declared in Hd. apply str_in_false in Hd. apply Hd. rewrite <- E. now apply in_map. }
-  assert (Hin : forall b, In (n, b) (m_access M) ->
-            (str_in n (map fst (filter (fun a => snd a && negb (declared M (fst a))) (m_access M))) = true <-> b = true)).
-  { intros b Hb. rewrite str_in_In, in_map_iff. split.
+  assert (Hin : forall (want b : bool), In (n, b) (m_access M) ->
+            (str_in n (map fst (filter (fun a => Bool.eqb (snd a) want && negb (declared M (fst a))) (m_access M))) = true
+             <-> b = want)).
+  { intros want b Hb. rewrite str_in_In, in_map_iff. split.
     - intros ([n' b'] & E & H). simpl in E. subst n'. apply filter_In in H as [H Hf]. simpl in Hf.
-      apply andb_true_iff in Hf as [Hf _]. subst b'.
+      apply andb_true_iff in Hf as [Hf _]. apply Bool.eqb_prop in Hf. subst b'.
       apply (In_get_nodup _ _ _ ND) in H, Hb. congruence.
-    - intros ->. exists (n, true). split; auto. apply filter_In. split; auto. simpl. now rewrite Hd. }
+    - intros ->. exists (n, want). split; auto. apply filter_In. split; auto. simpl.
+      rewrite Bool.eqb_reflx, Hd. reflexivity. }
+  assert (Epub : forall l, filter (fun a : str * bool => snd a && negb (declared M (fst a))) l
+                           = filter (fun a => Bool.eqb (snd a) true && negb (declared M (fst a))) l).
+  { intros l. apply filter_ext. intros [x b]. simpl. now destruct b. }
+  assert (Epriv : forall l, filter (fun a : str * bool => negb (snd a) && negb (declared M (fst a))) l
+                            = filter (fun a => Bool.eqb (snd a) false && negb (declared M (fst a))) l).
+  { intros l. apply filter_ext. intros [x b]. simpl. now destruct b. }
+  rewrite Epub, Epriv.
   assert (E2 : forall l1 l2, str_in n (l1 ++ l2) = str_in n l1 || str_in n l2).
   { induction l1; simpl; intros; auto. now rewrite IHl1, orb_assoc. }
   rewrite E2, N1. simpl.
   destruct (assoc_get n (m_access M)) as [b|] eqn:Eg.
-  - apply get_In in Eg. destruct b.
-    + rewrite (proj2 (Hin true Eg) eq_refl). apply orb_true_r.
-    + pose proof (Hin false Eg) as Hb.
-      destruct (str_in n (map fst (filter _ (m_access M)))) eqn:Es.
-      * destruct Hb as [Hb _]. discriminate (Hb eq_refl).
-      * rewrite orb_false_r. unfold region_free_m in RF. rewrite !andb_true_iff, !negb_true_iff in RF.
-        destruct RF as (((_ & R2) & _) & _). unfold region_private_m in R2.
-        destruct (is_public (m_default M)); auto. simpl in R2.
-        pose proof (existsb_false _ _ R2 (n, false) Eg) as H. simpl in H. now rewrite Hd in H.
-  - replace (str_in n (map fst (filter _ (m_access M)))) with false; [apply orb_false_r|].
-    symmetry. apply str_in_false. intros H. apply in_map_iff in H as ([n' b'] & E & H). simpl in E. subst n'.
-    apply filter_In in H as [H _]. apply In_get_some in H as [v H]. congruence.
+  - apply get_In in Eg.
+    assert (Hb : forall want, str_in n (map fst (filter (fun a => Bool.eqb (snd a) want && negb (declared M (fst a))) (m_access M)))
+                              = Bool.eqb b want).
+    { intros want. pose proof (Hin want b Eg) as H.
+      destruct (str_in n (map fst _)) eqn:E1.
+      - destruct H as [H _]. rewrite (H eq_refl). now rewrite Bool.eqb_reflx.
+      - destruct (Bool.eqb b want) eqn:E4; auto. apply Bool.eqb_prop in E4. destruct H as [_ H]. discriminate (H E4). }
+    rewrite !Hb. destruct b; simpl; auto. now rewrite andb_false_r.
+  - assert (Hno : forall want, str_in n (map fst (filter (fun a => Bool.eqb (snd a) want && negb (declared M (fst a))) (m_access M))) = false).
+    { intros want. apply str_in_false. intros H. apply in_map_iff in H as ([n' b'] & E & H). simpl in E. subst n'.
+      apply filter_In in H as [H _]. apply In_get_some in H as [v H]. congruence. }
+    rewrite !Hno. simpl. now rewrite andb_true_r.
 Qed.
 
 (* the imports given by a list of USE statements of M *)
@@ -435,7 +391,6 @@ Lemma imports_is g M A : imports g M A = imports_of g M A (m_uses M).
 Proof. reflexivity. Qed.
 
 Lemma fold_use_step g M (h : module -> tabs) (A : module -> list (str * ent)) :
-  region_free_m M = true ->
   forallb (fun a => negb (declared M (fst a))) (m_access M) = true ->
   NoDup (map fst (m_access M)) ->
   forall us,
@@ -451,7 +406,7 @@ Lemma fold_use_step g M (h : module -> tabs) (A : module -> list (str * ent)) :
   denotes (fst R) (Sp ++ filter (fun ne => reexported M (fst ne)) (imports_of g M A us))
   /\ denotes (snd R) (Sa ++ imports_of g M A us) /\ NoDup (map fst (fst R)).
 Proof.
-  intros RF Hacc NDa. induction us as [|u us IH]; intros Hus Hh pub all Sp Sa NDp Dp Da Fa Fp Hnd.
+  intros Hacc NDa. induction us as [|u us IH]; intros Hus Hh pub all Sp Sa NDp Dp Da Fa Fp Hnd.
   - simpl. rewrite !app_nil_r. auto.
   - simpl fold_left. unfold use_step at 2.
     unfold imports_of in *. simpl flat_map in *.
@@ -460,7 +415,7 @@ Proof.
       set (X := import_stmt M u (A T)) in *.
       assert (FX : functional X).
       { eapply functional_incl; [|exact Fa]. intros x Hx. apply in_app_iff. right. apply in_app_iff. now left. }
-      destruct (use_spec M u (fst (h T)) (A T) RF (Hus u (or_introl eq_refl)) NDt Dt FX) as [Du NDu].
+      destruct (use_spec M u (fst (h T)) (A T) NDt Dt FX) as [Du NDu].
       fold X in Du.
       rewrite filter_app in Fp |- *. rewrite app_assoc in Fp |- *. rewrite (app_assoc Sa) in Fa |- *.
       assert (Efil : filter (fun kv : str * ent => should_be_public M (fst kv)) X
@@ -485,7 +440,6 @@ Proof.
 Qed.
 
 Lemma mstep_spec c g M (h : module -> tabs) (A : module -> list (str * ent)) :
-  region_free_m M = true ->
   forallb (fun a => negb (declared M (fst a))) (m_access M) = true ->
   NoDup (map fst (m_access M)) ->
   (forall u T, In u (m_uses M) -> find_module g (u_target u) = Some T ->
@@ -496,7 +450,7 @@ Lemma mstep_spec c g M (h : module -> tabs) (A : module -> list (str * ent)) :
   denotes (fst R) (own_public c M ++ filter (fun ne => reexported M (fst ne)) (imports g M A))
   /\ denotes (snd R) (own_scope c M ++ imports g M A) /\ NoDup (map fst (fst R)).
 Proof.
-  intros RF Hacc NDa Hh F Hnd. unfold mstep. rewrite imports_is in *.
+  intros Hacc NDa Hh F Hnd. unfold mstep. rewrite imports_is in *.
   apply fold_use_step; auto.
   - apply own_pub_denotes.
   - apply own_pub_denotes.
@@ -770,7 +724,7 @@ Proof.
   intros H1 H2 Hs M HM. now rewrite !correlate_all_mtab.
 Qed.
 
-(* ================================================================== 3. Model = Spec outside the regions *)
+(* ================================================================== 3. Model = Spec *)
 
 Lemma wf_graph_facts g :
   wf_graph g = true ->
@@ -805,26 +759,6 @@ Proof.
   intros c ne Hne. rewrite forallb_forall in H2. apply negb_true_iff. unfold declared. simpl. apply H2.
   apply in_flat_map. exists c. split; auto. destruct c; simpl; auto.
 Qed.
-Lemma with_nested_false r M :
-  with_nested r M = false -> r M = false /\ forall S, In S (m_nested M) -> r (as_module M S) = false.
-Proof.
-  unfold with_nested. intros H. apply orb_false_iff in H as [H1 H2]. split; auto.
-  intros S HS. apply (existsb_false _ _ H2 S HS).
-Qed.
-Lemma no_region_facts_all g : no_region g = true -> forall M, In M g ->
-  region_free_m M = true /\ forall S, In S (m_nested M) -> region_free_m (as_module M S) = true.
-Proof.
-  unfold no_region, region_rename, region_private, region_only_empty, region_only_dup, region_free_m.
-  rewrite !andb_true_iff, !negb_true_iff. intros (((H1 & H2) & H3) & H4) M HM.
-  destruct (with_nested_false _ M (existsb_false _ _ H1 M HM)) as [A1 B1].
-  destruct (with_nested_false _ M (existsb_false _ _ H3 M HM)) as [A3 B3].
-  destruct (with_nested_false _ M (existsb_false _ _ H4 M HM)) as [A4 B4].
-  split.
-  - rewrite A1, (existsb_false _ _ H2 M HM), A3, A4. reflexivity.
-  - intros S HS. rewrite (B1 S HS), (B3 S HS), (B4 S HS). reflexivity.
-Qed.
-Lemma no_region_facts g : no_region g = true -> forall M, In M g -> region_free_m M = true.
-Proof. intros H M HM. now apply (no_region_facts_all g H M HM). Qed.
 Lemma scope_in_scope_all c g M x : In x (scope c g M) -> In x (scope_all g M).
 Proof. intros H. apply in_flat_map. exists c. split; auto. destruct c; simpl; auto. Qed.
 
@@ -849,13 +783,13 @@ Proof.
 Qed.
 
 Lemma mtab_spec c g o :
-  wf_graph g = true -> no_region g = true -> topo_b g o = true ->
+  wf_graph g = true -> topo_b g o = true ->
   forall k l1 n l2 M, length l1 = k -> o = l1 ++ n :: l2 -> find_module g n = Some M ->
   denotes (fst (mtab (S k) c g M)) (accessible_n (S k) c g M)
   /\ denotes (snd (mtab (S k) c g M)) (own_scope c M ++ imports g M (accessible_n k c g))
   /\ NoDup (map fst (fst (mtab (S k) c g M))).
 Proof.
-  intros Hwf Hnr Ht. destruct (wf_graph_facts g Hwf) as (ND & Hs & HwfM).
+  intros Hwf Ht. destruct (wf_graph_facts g Hwf) as (ND & Hs & HwfM).
   pose proof (topo_length g o Ht) as Hlen.
   pose proof Ht as Ht'. apply topo_b_facts in Ht' as (_ & _ & _ & TP).
   induction k as [k IH] using lt_wf_ind. intros l1 n l2 M Hl Eo Ef.
@@ -866,7 +800,6 @@ Proof.
   { rewrite <- Hl. symmetry. apply (imports_settled c g o Ht Hs l1 n l2 M Eo Ef). now rewrite Hl. }
   simpl mtab. simpl accessible_n.
   apply mstep_spec; auto.
-  - now apply no_region_facts with (g := g).
   - intros u T Hu EfT.
     destruct (target_in_deps g M u T (no_self_use_M g M Hs HM) Hu EfT) as [HT Hd].
     destruct (TP l1 n l2 Eo) as (M' & Ef' & Hdeps). assert (M' = M) by congruence. subst M'.
@@ -882,20 +815,20 @@ Proof.
 Qed.
 
 Lemma mtab_final_spec c g o :
-  wf_graph g = true -> no_region g = true -> topo_b g o = true ->
+  wf_graph g = true -> topo_b g o = true ->
   forall M, In M g ->
   denotes (fst (mtab (length g) c g M)) (accessible c g M)
   /\ denotes (snd (mtab (length g) c g M)) (scope c g M)
   /\ NoDup (map fst (fst (mtab (length g) c g M))).
 Proof.
-  intros Hwf Hnr Ht M HM. destruct (wf_graph_facts g Hwf) as (ND & Hs & _).
+  intros Hwf Ht M HM. destruct (wf_graph_facts g Hwf) as (ND & Hs & _).
   pose proof (topo_length g o Ht) as Hlen.
   pose proof Ht as Ht'. apply topo_b_facts in Ht' as (_ & _ & Sset & _).
   assert (Hin : In (m_name M) o) by (apply Sset; now apply in_map).
   apply in_split in Hin as (l1 & l2 & Eo).
   pose proof (find_module_nodup g M ND HM) as Ef.
   assert (Hl : S (length l1) <= length g) by (rewrite <- Hlen, Eo, app_length; simpl; lia).
-  destruct (mtab_spec c g o Hwf Hnr Ht (length l1) l1 (m_name M) l2 M eq_refl Eo Ef) as (D1 & D2 & N1).
+  destruct (mtab_spec c g o Hwf Ht (length l1) l1 (m_name M) l2 M eq_refl Eo Ef) as (D1 & D2 & N1).
   rewrite (mtab_stable c g o Ht Hs l1 (m_name M) l2 M Eo Ef (length g) Hl).
   unfold accessible, scope.
   rewrite (accessible_n_stable c g o Ht Hs l1 (m_name M) l2 M Eo Ef (length g) Hl).
@@ -903,12 +836,12 @@ Proof.
   auto.
 Qed.
 
-Theorem partial_correct g o :
-  wf_graph g = true -> no_region g = true -> topo_b g o = true ->
+Theorem full_correct g o :
+  wf_graph g = true -> topo_b g o = true ->
   forall c M, In M g -> tables_ok c g (correlate_all c g o) M.
 Proof.
-  intros Hwf Hnr Ht c M HM. destruct (wf_graph_facts g Hwf) as (ND & Hs & _).
-  destruct (mtab_final_spec c g o Hwf Hnr Ht M HM) as (D1 & D2 & _).
+  intros Hwf Ht c M HM. destruct (wf_graph_facts g Hwf) as (ND & Hs & _).
+  destruct (mtab_final_spec c g o Hwf Ht M HM) as (D1 & D2 & _).
   unfold tables_ok. rewrite (correlate_all_mtab c g o Ht Hs M HM). split; assumption.
 Qed.
 
@@ -923,13 +856,12 @@ Proof.
 Qed.
 
 Theorem nested_correct c g o :
-  wf_graph g = true -> no_region g = true -> topo_b g o = true ->
+  wf_graph g = true -> topo_b g o = true ->
   forall M S, In M g -> In S (m_nested M) ->
   denotes (nested_imports_model c g o M S) (nested_imports c g M S).
 Proof.
-  intros Hwf Hnr Ht M S HM HS. destruct (wf_graph_facts g Hwf) as (ND & Hs & _).
+  intros Hwf Ht M S HM HS. destruct (wf_graph_facts g Hwf) as (ND & Hs & _).
   destruct (wf_graph_nested g M S Hwf HM HS) as [Fn Hnd].
-  destruct (no_region_facts_all g Hnr M HM) as [_ RFn]. specialize (RFn S HS).
   pose proof Ht as Ht'. apply topo_b_facts in Ht' as (_ & NDo & Sset & TP).
   assert (Hin : In (m_name M) o) by (apply Sset; now apply in_map).
   apply in_split in Hin as (l1 & l2 & Eo).
@@ -939,7 +871,7 @@ Proof.
   assert (F0 : functional (nested_imports c g M S)).
   { eapply functional_incl; [|exact Fn]. intros x Hx. apply in_flat_map. exists c. split; auto.
     destruct c; simpl; auto. }
-  pose proof (fold_use_step g (as_module M S) (st_tabs (correlate_all c g l1)) (accessible c g) RFn
+  pose proof (fold_use_step g (as_module M S) (st_tabs (correlate_all c g l1)) (accessible c g)
                 (eq_refl : forallb _ (m_access (as_module M S)) = true) (NoDup_nil _) (s_uses S)) as Hf.
   destruct (Hf (fun u Hu => Hu)) with (pub := @nil (str * ent)) (all := @nil (str * ent))
                                       (Sp := @nil (str * ent)) (Sa := @nil (str * ent)) as (_ & D & _).
@@ -950,7 +882,7 @@ Proof.
     apply Hdeps in Hd. unfold st_tabs.
     rewrite (correlate_prefix c g o Ht Hs l1 (m_name M :: l2) Eo T HT).
     apply str_in_In in Hd. rewrite Hd.
-    destruct (mtab_final_spec c g o Hwf Hnr Ht T HT) as (D1 & _ & N1). auto.
+    destruct (mtab_final_spec c g o Hwf Ht T HT) as (D1 & _ & N1). auto.
   - constructor.
   - apply denotes_nil.
   - apply denotes_nil.
@@ -992,13 +924,19 @@ Proof.
   intros HM k e H. unfold own_pub in H. apply In_update in H as [H|[]].
   now apply (own_public_exported c g M HM k e).
 Qed.
-Lemma used_entities_from tp u k e : In (k, e) (used_entities tp u) -> exists k', In (k', e) tp.
+Lemma rename_list_from tp items k e : In (k, e) (rename_list tp items) -> exists k', In (k', e) tp.
 Proof.
-  unfold used_entities. destruct (u_only u) as [[|it items]|]; eauto.
-  rewrite fold_select_update. intros H. apply In_update in H as [H|[]].
-  apply in_flat_map in H as ([n e'] & Hin & H). simpl in H.
-  destruct (assoc_get n (used_names (it :: items))); [|destruct H].
-  destruct H as [H|[]]. injection H as _ <-. eauto.
+  unfold rename_list. intros H. apply in_flat_map in H as ([l r] & _ & H). simpl in H.
+  destruct (assoc_get r tp) eqn:E; [|destruct H]. destruct H as [H|[]]. injection H as _ <-.
+  apply get_In in E. eauto.
+Qed.
+Lemma used_entities_from tp hid u k e : In (k, e) (used_entities tp hid u) -> exists k', In (k', e) tp.
+Proof.
+  unfold used_entities. destruct (u_only u) as [items|]; intros H; apply In_update in H as [H|H].
+  - now apply rename_list_from in H.
+  - destruct H.
+  - now apply rename_list_from in H.
+  - apply filter_In in H as [H _]. eauto.
 Qed.
 Lemma import_stmt_from M u accT l e : In (l, e) (import_stmt M u accT) -> exists r, In (r, e) accT.
 Proof.
@@ -1195,44 +1133,46 @@ Definition w_only_empty : graph := [w_ma; mkM "mb" Public [] [] [mkU "ma" (Some 
 Definition w_only_dup : graph :=
   [w_ma; mkM "mb" Public [] [] [mkU "ma" (Some [(s "foo", s "foo"); (s "bar", s "foo")]) []]].
 
-Definition regions_of (g : graph) := (region_rename g, region_private g, region_only_empty g, region_only_dup g).
-
-(* each witness: a legal program, a topological order, exactly one region, and a module whose
-   tables differ from the Spec *)
-Definition refuted_in (g : graph) (r : bool * bool * bool * bool) : Prop :=
-  exists o c M, wf_graph g = true /\ topo_b g o = true /\ In M g /\ regions_of g = r /\
-                ~ tables_ok c g (correlate_all c g o) M.
-
-Lemma refuted_rename : refuted_in w_rename (true, false, false, false).
-Proof.
-  exists [s "ma"; s "mb"], CVar, (nth 1 w_rename w_ma).
-  repeat split; try (vm_compute; reflexivity); [simpl; auto|].
-  apply (refute_all_missing _ _ _ _ (s "bar") (s "ma", s "foo")); vm_compute; [reflexivity | discriminate].
-Qed.
-Lemma refuted_across : refuted_in w_across (true, false, false, false).
-Proof.
-  exists [s "ma"; s "mb"], CVar, (nth 1 w_across w_ma).
-  repeat split; try (vm_compute; reflexivity); [simpl; auto|].
-  apply (refute_all_extra _ _ _ _ (s "foo") (s "ma", s "foo")); vm_compute; reflexivity.
-Qed.
-Lemma refuted_private : refuted_in w_private (false, true, false, false).
-Proof.
-  exists [s "ma"; s "mb"; s "mc"], CVar, (nth 2 w_private w_ma).
-  repeat split; try (vm_compute; reflexivity); [simpl; auto|].
-  apply (refute_all_extra _ _ _ _ (s "foo") (s "ma", s "foo")); vm_compute; reflexivity.
-Qed.
-Lemma refuted_only_empty : refuted_in w_only_empty (false, false, true, false).
-Proof.
-  exists [s "ma"; s "mb"], CType, (nth 1 w_only_empty w_ma).
-  repeat split; try (vm_compute; reflexivity); [simpl; auto|].
-  apply (refute_all_extra _ _ _ _ (s "ta1") (s "ma", s "ta1")); vm_compute; reflexivity.
-Qed.
-Lemma refuted_only_dup : refuted_in w_only_dup (false, false, false, true).
-Proof.
-  exists [s "ma"; s "mb"], CVar, (nth 1 w_only_dup w_ma).
-  repeat split; try (vm_compute; reflexivity); [simpl; auto|].
-  apply (refute_all_missing _ _ _ _ (s "foo") (s "ma", s "foo")); vm_compute; [reflexivity | discriminate].
-Qed.
+(* the five former witnesses: legal programs, FORD's processing order, and the tables of the
+   importing module now hold what the Spec says (the general statement is full_correct) *)
+Definition tab_of (g : graph) (o : list str) (i : nat) (c : cls) : tabs :=
+  st_tabs (correlate_all c g o) (nth i g w_ma).
+(* use ma, bar => foo: foo is accessible as bar, and only as bar *)
+Example fixed_rename :
+  wf_graph w_rename = true /\ toposort w_rename = Some [s "ma"; s "mb"] /\
+  assoc_get (s "bar") (snd (tab_of w_rename [s "ma"; s "mb"] 1 CVar)) = Some (s "ma", s "foo") /\
+  assoc_get (s "foo") (snd (tab_of w_rename [s "ma"; s "mb"] 1 CVar)) = None /\
+  assoc_get (s "bar") (fst (tab_of w_rename [s "ma"; s "mb"] 1 CVar)) = Some (s "ma", s "foo").
+Proof. repeat split; vm_compute; reflexivity. Qed.
+(* use ma / use ma, only: bar => foo: the rename of the second statement hides foo in the first *)
+Example fixed_across :
+  wf_graph w_across = true /\ toposort w_across = Some [s "ma"; s "mb"] /\
+  assoc_get (s "bar") (snd (tab_of w_across [s "ma"; s "mb"] 1 CVar)) = Some (s "ma", s "foo") /\
+  assoc_get (s "foo") (snd (tab_of w_across [s "ma"; s "mb"] 1 CVar)) = None /\
+  assoc_get (s "wa1") (snd (tab_of w_across [s "ma"; s "mb"] 1 CVar)) = Some (s "ma", s "wa1").
+Proof. repeat split; vm_compute; reflexivity. Qed.
+(* use ma; private :: foo in mb: mc, which uses mb, does not get foo *)
+Example fixed_private :
+  wf_graph w_private = true /\ toposort w_private = Some [s "ma"; s "mb"; s "mc"] /\
+  assoc_get (s "foo") (snd (tab_of w_private [s "ma"; s "mb"; s "mc"] 1 CVar)) = Some (s "ma", s "foo") /\
+  assoc_get (s "foo") (fst (tab_of w_private [s "ma"; s "mb"; s "mc"] 1 CVar)) = None /\
+  assoc_get (s "foo") (snd (tab_of w_private [s "ma"; s "mb"; s "mc"] 2 CVar)) = None /\
+  assoc_get (s "wa1") (snd (tab_of w_private [s "ma"; s "mb"; s "mc"] 2 CVar)) = Some (s "ma", s "wa1").
+Proof. repeat split; vm_compute; reflexivity. Qed.
+(* use ma, only: imports nothing *)
+Example fixed_only_empty :
+  wf_graph w_only_empty = true /\ toposort w_only_empty = Some [s "ma"; s "mb"] /\
+  snd (tab_of w_only_empty [s "ma"; s "mb"] 1 CType) = [] /\
+  snd (tab_of w_only_empty [s "ma"; s "mb"] 1 CVar) = [] /\
+  snd (tab_of w_only_empty [s "ma"; s "mb"] 1 CProc) = [] /\
+  snd (tab_of w_only_empty [s "ma"; s "mb"] 1 CAbs) = [].
+Proof. repeat split; vm_compute; reflexivity. Qed.
+(* use ma, only: foo, bar => foo: both local names denote ma's foo *)
+Example fixed_only_dup :
+  wf_graph w_only_dup = true /\ toposort w_only_dup = Some [s "ma"; s "mb"] /\
+  assoc_get (s "foo") (snd (tab_of w_only_dup [s "ma"; s "mb"] 1 CVar)) = Some (s "ma", s "foo") /\
+  assoc_get (s "bar") (snd (tab_of w_only_dup [s "ma"; s "mb"] 1 CVar)) = Some (s "ma", s "foo").
+Proof. repeat split; vm_compute; reflexivity. Qed.
 
 (* a diamond of re-export with ONLY, renames, a default-private module and an explicit PUBLIC *)
 Definition ex_g : graph :=
@@ -1246,7 +1186,7 @@ Definition ex_o1 := [s "ma"; s "mb"; s "mc"; s "md"].
 Definition ex_o2 := [s "ma"; s "mc"; s "mb"; s "md"].
 
 Example ex_hypotheses :
-  wf_graph ex_g = true /\ no_region ex_g = true /\ no_self_use ex_g = true /\
+  wf_graph ex_g = true /\ no_self_use ex_g = true /\
   topo_b ex_g ex_o1 = true /\ topo_b ex_g ex_o2 = true /\ ex_o1 <> ex_o2 /\
   toposort ex_g = Some ex_o1 /\ NoDup (names ex_g).
 Proof.
@@ -1283,12 +1223,12 @@ Definition w_genbody : graph :=
    entities): with find_used_modules / get_deps visiting all interface blocks the used module comes
    first and ta is there *)
 Example fixed_absbody :
-  wf_graph w_absbody = true /\ no_region w_absbody = true /\ toposort w_absbody = Some [s "za"; s "mm"] /\
+  wf_graph w_absbody = true /\ toposort w_absbody = Some [s "za"; s "mm"] /\
   assoc_get (s "ta") (nested_imports_model CType w_absbody [s "za"; s "mm"] (nth 0 w_absbody w_za)
                         (mkS ["cb"%string] [NAbsBody] [] [mkU "za" None []])) = Some (s "za", s "ta").
 Proof. repeat split; vm_compute; reflexivity. Qed.
 Example fixed_genbody :
-  wf_graph w_genbody = true /\ no_region w_genbody = true /\
+  wf_graph w_genbody = true /\
   toposort w_genbody = Some [s "za"; s "zf"; s "mm"] /\
   assoc_get (s "ta") (nested_imports_model CType w_genbody [s "za"; s "zf"; s "mm"] (nth 0 w_genbody w_za)
                         (mkS ["ext"%string] [NGenBody] [] [mkU "zf" None []])) = Some (s "za", s "ta").
@@ -1302,7 +1242,7 @@ Definition ex_gn : graph :=
               mkS ["pe"%string; "cbx"%string] [NRoutine; NAbsBody] [] [mkU "ma" (Some [(s "ix", s "ia1")]) []]]].
 Definition ex_on := ex_o1 ++ [s "me"].
 Example ex_nested_hypotheses :
-  wf_graph ex_gn = true /\ no_region ex_gn = true /\ topo_b ex_gn ex_on = true /\
+  wf_graph ex_gn = true /\ topo_b ex_gn ex_on = true /\
   toposort ex_gn = Some ex_on /\
   (* without the nested USE statements "me" would not depend on anything *)
   deps ex_gn (nth 4 ex_gn w_ma) = [s "md"; s "mc"; s "mb"; s "ma"] /\
@@ -1315,24 +1255,18 @@ Example ex_nested_hypotheses :
           (nth 1 (m_nested (nth 4 ex_gn w_ma)) (mkS [] [] [] []))) = true.
 Proof. repeat split; vm_compute; reflexivity. Qed.
 
-(* the nested statement without the region hypothesis still fails: the recorded USE-statement
-   defects (here: a rename without ONLY is ignored) are the same in a nested scope *)
+Example ex_nested_example :
+  wf_graph ex_gn = true /\ topo_b ex_gn ex_on = true /\ toposort ex_gn = Some ex_on /\
+  deps ex_gn (nth 4 ex_gn w_ma) = [s "md"; s "mc"; s "mb"; s "ma"].
+Proof. repeat split; vm_compute; reflexivity. Qed.
+
+(* the former nested witness: a rename without ONLY in a nested scope *)
 Definition w_nested_rename : graph :=
   [mkMn "mm" Public [mkD "p" KProc Public] [] []
          [mkS ["p"%string] [NRoutine] [] [mkU "za" None [(s "tb", s "ta")]]];
    w_za].
-Definition nested_refuted_in (g : graph) : Prop :=
-  exists o c M S, wf_graph g = true /\ topo_b g o = true /\ toposort g = Some o /\
-                  In M g /\ In S (m_nested M) /\ region_rename g = true /\
-                  ~ denotes (nested_imports_model c g o M S) (nested_imports c g M S).
-Lemma refuted_nested_rename : nested_refuted_in w_nested_rename.
-Proof.
-  exists [s "za"; s "mm"], CType, (nth 0 w_nested_rename w_za),
-         (mkS ["p"%string] [NRoutine] [] [mkU "za" None [(s "tb", s "ta")]]).
-  repeat split; try (vm_compute; reflexivity); try (simpl; auto; fail).
-  intros D. specialize (D (s "tb") (s "za", s "ta")). destruct D as [_ D].
-  assert (H : in_b (s "tb") (s "za", s "ta")
-                (nested_imports CType w_nested_rename (nth 0 w_nested_rename w_za)
-                   (mkS ["p"%string] [NRoutine] [] [mkU "za" None [(s "tb", s "ta")]])) = true) by (vm_compute; reflexivity).
-  apply in_b_In in H. apply D in H. vm_compute in H. discriminate.
-Qed.
+Example fixed_nested_rename :
+  wf_graph w_nested_rename = true /\ toposort w_nested_rename = Some [s "za"; s "mm"] /\
+  nested_imports_model CType w_nested_rename [s "za"; s "mm"] (nth 0 w_nested_rename w_za)
+     (mkS ["p"%string] [NRoutine] [] [mkU "za" None [(s "tb", s "ta")]]) = [(s "tb", (s "za", s "ta"))].
+Proof. repeat split; vm_compute; reflexivity. Qed.
